@@ -125,6 +125,7 @@ def gen_knobs(rng, tier):
         "big_ids": rng.random() < 0.3,          # ids of large workspaces (extern ids start above 10^8; int64 arithmetic wraps near 9.2e18)
         "p_numpy": rng.choice([0.0, 0.0, 0.3]),  # call sites whose ids are numpy integers (ids read from tables are)
         "persist_max_rows": rng.choice([1, 2, 3, 400000, 400000]),
+        "tmp_fs": rng.choice(["scratch", "other"]),      # the temporary directory on the workspace's file system, or on another one
         "p_steps": rng.choice([0.0, 0.3, 0.6]),    # path objects built call by call (as the analysis does) instead of from a tuple
         "w_persist": rng.choice([0, 0, 1, 2]),      # save the stored paths through the call-path loader, export, restore, re-seed a new store
     }
@@ -299,6 +300,8 @@ def execute(trace):
     # the bundle row limit is read at call time by the storage layer: small values make a persisted table "big"
     from lian.config import config as _cfg
     _cfg.MAX_ROWS = int(k.get("persist_max_rows", 400000))
+    from sim.core import select_tmp
+    select_tmp(k.get("tmp_fs", "scratch"))
     pm = _cs.PathManager()
     m = Model()
     probes = {}
